@@ -21,13 +21,13 @@ import (
 
 // ---- an independently written peer of the documented protocol (docs: STS with nacl secretbox) ----
 //
-//	1. exchange 32-byte ephemeral Curve25519 keys in the clear;
-//	2. shared = box.Precompute(remoteEph, localEphPriv); lo, hi = sorted ephemeral keys;
-//	   nonce1 = ripemd160(lo||hi) zero-padded to 24 bytes, nonce2 = nonce1 with the last bit flipped;
-//	   the side holding `lo` receives with nonce1 and sends with nonce2; challenge = sha256(lo||hi);
-//	3. every frame is secretbox(2-byte big-endian length || payload padded to 1024), nonce += 2 per frame;
-//	4. each side sends, as two writes, the 4-byte little-endian length and the go-wire encoding of
-//	   {PubKey, Signature(challenge)} and verifies the other side's.
+//  1. exchange 32-byte ephemeral Curve25519 keys in the clear;
+//  2. shared = box.Precompute(remoteEph, localEphPriv); lo, hi = sorted ephemeral keys;
+//     nonce1 = ripemd160(lo||hi) zero-padded to 24 bytes, nonce2 = nonce1 with the last bit flipped;
+//     the side holding `lo` receives with nonce1 and sends with nonce2; challenge = sha256(lo||hi);
+//  3. every frame is secretbox(2-byte big-endian length || payload padded to 1024), nonce += 2 per frame;
+//  4. each side sends, as two writes, the 4-byte little-endian length and the go-wire encoding of
+//     {PubKey, Signature(challenge)} and verifies the other side's.
 type refPeer struct {
 	conn      io.ReadWriter
 	shared    [32]byte
@@ -151,12 +151,12 @@ type HandshakeCase struct {
 	// mitm: two real ends; Devs replace delivery items of the three handshake messages of a lane
 	Devs []Dev `json:"devs,omitempty"`
 	// peer: a real end (key V) against the reference peer announcing key K1
-	Sign    string `json:"sign,omitempty"` // own | otherkey | wrongchallenge | garbage
-	EphSeed uint64 `json:"eph_seed,omitempty"`
-	ToReal  int    `json:"to_real,omitempty"`   // bytes the reference peer then sends to the real end
-	FromReal int   `json:"from_real,omitempty"` // bytes the real end then sends to the reference peer
-	ReadBuf int    `json:"read_buf,omitempty"`
-	Seed    uint64 `json:"seed,omitempty"`
+	Sign     string `json:"sign,omitempty"` // own | otherkey | wrongchallenge | garbage
+	EphSeed  uint64 `json:"eph_seed,omitempty"`
+	ToReal   int    `json:"to_real,omitempty"`   // bytes the reference peer then sends to the real end
+	FromReal int    `json:"from_real,omitempty"` // bytes the real end then sends to the reference peer
+	ReadBuf  int    `json:"read_buf,omitempty"`
+	Seed     uint64 `json:"seed,omitempty"`
 }
 
 type Dev struct {
